@@ -262,6 +262,12 @@ func models() []*ref.G {
 		ref.NewCollection(geom.NoLayout, ref.NewPoint(geom.XYZ, true, val()), ref.NewMultiPoint(geom.XYZ, []int{1, 0}, val())),
 		ref.NewCollection(geom.XYM),
 	)
+	// a collection with an SRID whose members carry SRIDs of their own: equal to the collection's,
+	// different from it, and none
+	withSRID := ref.NewCollection(geom.NoLayout, ref.NewPoint(geom.XY, true, val()), ref.NewLine(ref.LineString, geom.XY, 2, val()), ref.NewMultiPoint(geom.XY, []int{1, 1}, val()))
+	withSRID.SRID = 4326
+	withSRID.Kids[0].SRID, withSRID.Kids[1].SRID = 4326, 3857
+	out = append(out, withSRID)
 	return out
 }
 
@@ -500,6 +506,11 @@ type measured interface {
 }
 
 // Registry lists the functions under property C17.
+var (
+	sharedWKTEncoder        = wkt.NewEncoder(wkt.EncodeOptionWithMaxDecimalDigits(3))
+	sharedWKTEncoderDefault = wkt.NewEncoder()
+)
+
 func Registry() []Fn {
 	nanOpt := wkbcommon.WKBOptionEmptyPointHandling(wkbcommon.EmptyPointHandlingNaN)
 	r := []Fn{
@@ -762,6 +773,12 @@ func Registry() []Fn {
 			h, e5 := ewkbhex.Encode(in.BadT, ewkbhex.NDR)
 			h2, e6 := wkbhex.Encode(in.BadT, wkbhex.XDR)
 			return fmt.Sprintf("%q %v|%q %v|%x %v|%x %v|%s %v|%s %v", s, e1 != nil, s2, e2 != nil, b, e3 != nil, b2, e4 != nil, h, e5 != nil, h2, e6 != nil)
+		}},
+		{"wkt.Encoder.Encode(one shared Encoder)", func(in *Input) bool { return hasGeom(in) && in.WKT != "" }, func(in *Input) string {
+			// an Encoder is configuration; callers keep one and use it from wherever they encode
+			s, err := sharedWKTEncoder.Encode(in.T)
+			s2, err2 := sharedWKTEncoderDefault.Encode(in.T)
+			return in.fp(s, err, s2, err2)
 		}},
 		// decoders
 		{"wkb.Unmarshal+Scan", func(in *Input) bool { return in.WKB != nil }, func(in *Input) string {
